@@ -12,6 +12,7 @@
 #include "tracked.hpp"
 #include <algorithm>
 #include <cstring>
+#include <iterator>
 #include <list>
 #include <memory>
 #include <string>
@@ -74,12 +75,19 @@ namespace c14
         K_MOVE_CTOR,
         K_CTOR_RANGE_PTR,
         K_CTOR_RANGE_LIST,
-        K_CTOR_IL
+        K_CTOR_IL,
+        // value-category variants of every operation that takes an element (appended: earlier indices keep their meaning)
+        K_PUSH_BACK_RVALUE,         // push_back(T(v))
+        K_PUSH_BACK_MOVED,          // T t(v); push_back(std::move(t))
+        K_EMPLACE_BACK_RVALUE_ELEM, // emplace_back(T(v))
+        K_EMPLACE_BACK_LVALUE_ELEM, // T t(v); emplace_back(t)
+        K_CTOR_RANGE_MOVE_ITER      // static_vector(std::make_move_iterator(first), std::make_move_iterator(last))
     };
     inline const char *kname(int k)
     {
         static const char *n[] = {"push_back", "emplace_back", "erase_range", "resize", "clear", "copy_assign", "self_assign", "move_assign",
-                                  "default_ctor", "copy_ctor", "move_ctor", "ctor_range_pointer", "ctor_range_list_iterator", "ctor_initlist"};
+                                  "default_ctor", "copy_ctor", "move_ctor", "ctor_range_pointer", "ctor_range_list_iterator", "ctor_initlist",
+                                  "push_back_rvalue", "push_back_moved", "emplace_back_rvalue_element", "emplace_back_lvalue_element", "ctor_range_move_iterator"};
         return n[k];
     }
 
@@ -158,6 +166,23 @@ namespace c14
                     }
                 }
             }
+            // appended after everything else so that the indices of the operations above never change
+            for (int x = 0; x < 2; x++)
+            {
+                for (int v = 0; v < NV; v++)
+                    for (int k : {K_PUSH_BACK_RVALUE, K_PUSH_BACK_MOVED, K_EMPLACE_BACK_RVALUE_ELEM, K_EMPLACE_BACK_LVALUE_ELEM})
+                        ops.push_back({k, x, v, 0});
+                if (Tr::has_range_ctor)
+                    for (int i = 0; i < (int)lists.size(); i++)
+                    {
+                        bool cyc = true;
+                        for (size_t j = 1; j < lists[i].size(); j++)
+                            if (lists[i][j] != (lists[i][j - 1] + 1) % NV)
+                                cyc = false;
+                        if (cyc)
+                            ops.push_back({K_CTOR_RANGE_MOVE_ITER, x, i, 0});
+                    }
+            }
             t->names.resize(ops.size());
             return t;
         }
@@ -196,6 +221,14 @@ namespace c14
             case K_PUSH_BACK:
             case K_EMPLACE_BACK:
                 return mc::fmt("%s.%s(%d)", X, kname(p.kind), p.a);
+            case K_PUSH_BACK_RVALUE:
+                return mc::fmt("%s.push_back(T(%d))", X, p.a);
+            case K_PUSH_BACK_MOVED:
+                return mc::fmt("T t(%d); %s.push_back(std::move(t))", p.a, X);
+            case K_EMPLACE_BACK_RVALUE_ELEM:
+                return mc::fmt("%s.emplace_back(T(%d))", X, p.a);
+            case K_EMPLACE_BACK_LVALUE_ELEM:
+                return mc::fmt("T t(%d); %s.emplace_back(t)", p.a, X);
             case K_ERASE:
                 return mc::fmt("%s.erase(begin+%d, begin+%d)", X, p.a, p.b);
             case K_RESIZE:
@@ -217,6 +250,7 @@ namespace c14
             case K_CTOR_RANGE_PTR:
             case K_CTOR_RANGE_LIST:
             case K_CTOR_IL:
+            case K_CTOR_RANGE_MOVE_ITER:
                 return mc::fmt("%s.~static_vector(); new(%s) static_vector<N=%zu> %s %s", X, X, N, kname(p.kind), vstr(lists[p.a]).c_str());
             }
             return "?";
@@ -304,6 +338,10 @@ namespace c14
             {
             case K_PUSH_BACK:
             case K_EMPLACE_BACK:
+            case K_PUSH_BACK_RVALUE:
+            case K_PUSH_BACK_MOVED:
+            case K_EMPLACE_BACK_RVALUE_ELEM:
+            case K_EMPLACE_BACK_LVALUE_ELEM:
                 ctx(kname(p.kind), n == (int)N ? "full" : "room");
                 if (n == (int)N)
                     mc::nontrivial();
@@ -311,6 +349,20 @@ namespace c14
                 {
                     T t(p.a);
                     X.push_back(t);
+                }
+                else if (p.kind == K_PUSH_BACK_RVALUE)
+                    X.push_back(T(p.a));
+                else if (p.kind == K_PUSH_BACK_MOVED)
+                {
+                    T t(p.a);
+                    X.push_back(std::move(t));
+                }
+                else if (p.kind == K_EMPLACE_BACK_RVALUE_ELEM)
+                    X.emplace_back(T(p.a));
+                else if (p.kind == K_EMPLACE_BACK_LVALUE_ELEM)
+                {
+                    T t(p.a);
+                    X.emplace_back(t);
                 }
                 else
                     X.emplace_back(p.a);
@@ -400,6 +452,7 @@ namespace c14
                 break;
             case K_CTOR_RANGE_PTR:
             case K_CTOR_RANGE_LIST:
+            case K_CTOR_RANGE_MOVE_ITER:
                 if constexpr (Tr::has_range_ctor)
                 {
                     const auto &l = lists[p.a];
@@ -407,7 +460,14 @@ namespace c14
                         mc::nontrivial();
                     destroy(p.x);
                     ctx(kname(p.kind), l.size() > N ? "longer_than_capacity" : "fits");
-                    if (p.kind == K_CTOR_RANGE_LIST)
+                    if (p.kind == K_CTOR_RANGE_MOVE_ITER)
+                    {
+                        std::list<T> src; // elements handed over as rvalues
+                        for (int v : l)
+                            src.emplace_back(v);
+                        new (blk[p.x].ptr()) Vec(std::make_move_iterator(src.begin()), std::make_move_iterator(src.end()));
+                    }
+                    else if (p.kind == K_CTOR_RANGE_LIST)
                     {
                         std::list<T> src;
                         for (int v : l)
